@@ -17,7 +17,7 @@ REAL_THOROUGH = [{'kind': 'close_join', 'n': 2, 'applies': 6, 'threads': False, 
 
 
 def run(res):
-    res.proof_step('Props/C07.v', extra_targets=['Model/Pool.vo'], kernels_needed=['G_pool_shape'])
+    res.proof_step('Props/C07.v', extra_targets=['Model/Pool.vo'], kernels_needed=['G_pool_shape', 'G_pool_pins'])
     n = 150 if res.tier == 'quick' else 6000
     if res.broken:
         n = max(n, 1500)      # failing-input search on the implementation
